@@ -81,6 +81,16 @@ CHECKS = {
         "A frequency exactly on a non-dyadic threshold is DONT_CARE; small-scope columns.",
         "DESIGN.md §3 C09",
     ),
+    "C16": (
+        "E1-space",
+        "bounded-exhaustive search over fitted objects; summary()/history() compared with transform and with a re-enumeration of both searches",
+        "For every fitted carver of the C01 space and every Discretizer-family object of the column space: summary() rows are compared with "
+        "values_orders and with one-row transforms of every listed value / one probe per quantitative group; history() must hold the raw "
+        "row, every candidate RefCarver enumerates for both searches exactly once with a measure equal to recomputation, and its last "
+        "viable row must be the fitted grouping.",
+        "History of quantitative features speaks in interval labels, resolved through the raw-distribution row; small-scope datasets.",
+        "DESIGN.md §3 C16",
+    ),
 }
 
 NOT_BUILT = "check not built yet (work in progress, see DESIGN.md §7 for the order)"
